@@ -213,7 +213,11 @@ func summary(r Repo) []string {
 type Fault struct {
 	RepoSeed int
 	K        int    // before the K-th Get SDR
-	Kind     string // cancel, add, delete, replace, append-keep
+	Kind     string // cancel, add, delete, replace, append-keep, delete-keep, replace-keep
+	// an optional second fault, before the K2-th Get SDR (counted over the whole
+	// retrieval, so it normally hits the repeated walk)
+	K2    int
+	Kind2 string
 }
 
 // mutateRepo returns the new version for a modifying fault.
@@ -273,32 +277,39 @@ func runFault(f Fault) (msg string, nontrivial string) {
 	install(w.BMC, r)
 	final := r
 	fired := false
-	w.BMC.Data.Repo.BeforeGetSDR = func(rp *simbmc.Repo, k int) {
-		if fired || k != f.K {
-			return
-		}
-		fired = true
-		switch f.Kind {
+	fired2 := false
+	apply := func(rp *simbmc.Repo, cur Repo, kind string, k int) Repo {
+		switch kind {
 		case "cancel":
 			rp.CancelReservation()
+			return cur
+		}
+		nv := mutateRepo(cur, Fault{RepoSeed: f.RepoSeed, K: k, Kind: kind})
+		rp.Records = nil
+		for _, rec := range nv.Recs {
+			rp.Records = append(rp.Records, simbmc.Record{ID: rec.ID, Bytes: rec.Raw})
+		}
+		switch kind {
+		case "delete", "delete-keep":
+			rp.EraseTS += 5
+		case "replace", "replace-keep":
+			rp.EraseTS += 5
+			rp.AddTS += 5
 		default:
-			final = mutateRepo(r, f)
-			rp.Records = nil
-			for _, rec := range final.Recs {
-				rp.Records = append(rp.Records, simbmc.Record{ID: rec.ID, Bytes: rec.Raw})
-			}
-			switch f.Kind {
-			case "delete", "delete-keep":
-				rp.EraseTS += 5
-			case "replace", "replace-keep":
-				rp.EraseTS += 5
-				rp.AddTS += 5
-			default:
-				rp.AddTS += 5
-			}
-			if !strings.HasSuffix(f.Kind, "-keep") {
-				rp.CancelReservation()
-			}
+			rp.AddTS += 5
+		}
+		if !strings.HasSuffix(kind, "-keep") {
+			rp.CancelReservation()
+		}
+		return nv
+	}
+	w.BMC.Data.Repo.BeforeGetSDR = func(rp *simbmc.Repo, k int) {
+		if !fired && k == f.K {
+			fired = true
+			final = apply(rp, final, f.Kind, f.K)
+		} else if fired && !fired2 && f.Kind2 != "" && k == f.K2 {
+			fired2 = true
+			final = apply(rp, final, f.Kind2, f.K2)
 		}
 	}
 	ctx, cancel := context.WithTimeout(context.Background(), 30*time.Second)
@@ -360,6 +371,16 @@ func TestFaults(t *testing.T) {
 	if !ev.Thorough() && len(faults) > 220 {
 		faults = faults[:220]
 	}
+	// double faults: a second event during the repeated walk
+	for i := 0; i < ev.Pick(6, 40); i++ {
+		seed := int(ev.Seed)*1009 + i*7 + 1
+		L := walkLength(seed)
+		for j, kind := range kinds {
+			k := 1 + (i+j)%L
+			k2 := k + 1 + (i*3+j)%L
+			faults = append(faults, Fault{RepoSeed: seed, K: k, Kind: kind, K2: k2, Kind2: kinds[(j+i+1)%len(kinds)]})
+		}
+	}
 	var mu sync.Mutex
 	var wg sync.WaitGroup
 	sem := make(chan struct{}, 256)
@@ -390,6 +411,9 @@ func TestFaults(t *testing.T) {
 			if nt != "" {
 				ev.NonTrivial(nt)
 				ev.Label("fault:" + f.Kind)
+				if f.Kind2 != "" {
+					ev.Label("double-fault")
+				}
 			}
 			if f.K == 1 {
 				ev.Sample(map[string]any{"fault": f, "records": summary(genRepo().Example(f.RepoSeed))})
@@ -405,6 +429,6 @@ func TestFaults(t *testing.T) {
 }
 
 func TestCoverage(t *testing.T) {
-	ev.RequireLabels(t, 1, "faults-complete", "fault:cancel", "fault:add", "fault:delete", "fault:replace", "fault:append-keep", "fault:delete-keep", "fault:replace-keep",
+	ev.RequireLabels(t, 1, "faults-complete", "fault:cancel", "fault:add", "fault:delete", "fault:replace", "fault:append-keep", "fault:delete-keep", "fault:replace-keep", "double-fault",
 		"idstring:enc0:empty=true", "idstring:enc3:empty=true", "idstring:enc1:empty=false", "idstring:enc2:empty=false")
 }
